@@ -251,3 +251,20 @@ def repeatable(h):
         mut_check(h, f'AQUA(adaptive={adaptive}).estimate', lambda *x: f.estimate(*x), [a, m])
     f2 = flt.Madgwick()
     mut_check(h, 'Madgwick.updateIMU (same instance)', lambda *x: f2.updateIMU(*x), [q, g, a])
+
+
+@harness('C19/filters.AQUA-adaptive', allowed_exc=(ValueError,), functions=[FF + 'aqua:AQUA.updateIMU', FF + 'aqua:adaptive_gain'], max_paths=12)
+def aqua_adaptive(h):
+    """AQUA(adaptive=True).updateIMU called twice on one instance with the same arguments: same result, same gain (no hidden state)"""
+    h.definedness = 'assume'
+    q = h.unit_quat('q')
+    g = _vecnz(h, 'g', 3)
+    a = _vecnz(h, 'a', 3, -7, 7)      # |a| from 0.1 to 12: below, inside and above the gain-factor ramp around g = 8.4
+    f = flt.AQUA(adaptive=True)
+    r1 = f.updateIMU(q.copy(), g.copy(), a.copy())
+    al1 = f.alpha
+    r2 = f.updateIMU(q.copy(), g.copy(), a.copy())
+    al2 = f.alpha
+    h.out('q1', np.array(r1))
+    h.check('adaptive gain after the second identical call equals the gain after the first', h.eq(al2, al1))
+    h.check('second identical call returns the same attitude', _same(h, r1, r2))
